@@ -215,7 +215,8 @@ _QUICK_CB = {
             "c00_value_cbor_ne", "c00_value_json_ne", "c00_ident_cbor_nint_int", "c00_ident_json_uint_int", "c00_ident_json_uint_big"],
 }
 _CB_UNREACHED = {"c00_type2_cbor_literal": "visit_type2 on a literal node ran out of 14 GB after 22 min: one level of composition (type2 -> value) is already too much"}
-_CB_FINDINGS = {"c09_range_json_mixed": "KF-C01-json-mixed-range"}
+_CB_FINDINGS = {"c00_value_json_neg_vs_uint": "KF-C01-json-negative-vs-uint-literal", "c00_value_json_big_vs_int": "KF-C01-json-negative-vs-uint-literal",
+                "c09_range_json_mixed": "KF-C01-json-mixed-range"}
 
 
 def _le(v, signed=True):
